@@ -120,7 +120,7 @@ def run(ctx):
         which = rng.choice(["changing", "changing", "anomalous", "anomalous", "alternating"])
         n = rng.choice([1, 2, 3, 5, 8, 13, 20, 30]) if i % 5 else rng.randint(1, 30)
         p = rng.choice([1, 1, 2, 3])
-        seed = rng.randint(0, 10 ** 6)
+        seed = rng.randint(0, 10 ** 6) if i % 6 else [0, 1, 2 ** 32 - 1, 0][(i // 6) % 4]    # boundary seeds: 0 is a seed, not "no seed"
         invalid = rng.random() < 0.3
         if which == "changing":
             k = rng.choice([0, 1, 1, 2, 3])
